@@ -503,4 +503,152 @@ theorem monoEntry_canon (mono : List Entry) (hname : ∀ e ∈ mono, monoEntry m
   | none => exact h
   | some e => exact hname e (monoEntry_some mono k e h).1
 
+/-! ## the tokenizer against the writer (sep = '') -/
+
+theorem writeGlycan_nil : writeGlycan [] [] = [] := rfl
+
+theorem writeGlycan_cons (k : Str) (v : Num) (g : Comp) :
+    writeGlycan ((k, v) :: g) [] = k ++ v.show ++ writeGlycan g [] := by
+  cases g with
+  | nil => simp [writeGlycan, intercalate]
+  | cons kv r => simp [writeGlycan, intercalate]
+
+/-- does the text start with a character the count scanner would swallow -/
+def startsCount : Str → Bool
+  | [] => false
+  | c :: _ => isCountChar c
+
+theorem spanP_exact (p : Nat → Bool) : ∀ (a rest : Str), (∀ c ∈ a, p c = true) →
+    (∀ c r, rest = c :: r → p c = false) → spanP p (a ++ rest) = (a, rest) := by
+  intro a
+  induction a with
+  | nil =>
+    intro rest _ hr
+    cases rest with
+    | nil => rfl
+    | cons c r => simp [spanP, hr c r rfl]
+  | cons x t ih =>
+    intro rest ha hr
+    have hx : p x = true := ha x (by simp)
+    have := ih rest (fun c hc => ha c (List.mem_cons_of_mem _ hc)) hr
+    simp [spanP, hx, this]
+
+/-- characters consumed by the previous token are skipped -/
+theorem parseGlycanAux_skip (names : List Str) (rest : Str) (d : Comp) :
+    ∀ pre : Str, parseGlycanAux names pre.length (pre ++ rest) d = parseGlycanAux names 0 rest d := by
+  intro pre
+  induction pre with
+  | nil => rfl
+  | cons c t ih => simpa [parseGlycanAux] using ih
+
+theorem countOf_show {v : Num} (hv : NumOK v) : countOf v.show = some v := by
+  unfold countOf
+  have : v.show.isEmpty = false := by
+    cases h : v.show with
+    | nil => exact absurd h hv.ne
+    | cons _ _ => rfl
+  simp [this, hv.conv]
+
+theorem isCountChar_of_chars {c : Nat} (h : (isDigit c || c == 45 || c == 46) = true) : isCountChar c = true := by
+  unfold isCountChar
+  simp only [Bool.or_eq_true] at h ⊢
+  rcases h with (h | h) | h
+  · exact Or.inl (Or.inl (Or.inl h))
+  · exact Or.inl (Or.inr h)
+  · exact Or.inr h
+
+/-- one item: the tokenizer takes the written name, reads back the written count and assigns it -/
+theorem parseGlycanAux_item (names : List Str) (nm : Str) (v : Num) (rest : Str) (d : Comp)
+    (hne : nm ≠ []) (hv : NumOK v)
+    (hfind : names.find? (fun n => n.isPrefixOf (nm ++ v.show ++ rest)) = some nm)
+    (hrest : startsCount rest = false) :
+    parseGlycanAux names 0 (nm ++ v.show ++ rest) d = parseGlycanAux names 0 rest (setTo d nm v) := by
+  obtain ⟨c, t, rfl⟩ : ∃ c t, nm = c :: t := by
+    cases nm with
+    | nil => exact absurd rfl hne
+    | cons c t => exact ⟨c, t, rfl⟩
+  have hspan : spanP isCountChar (v.show ++ rest) = (v.show, rest) := by
+    apply spanP_exact
+    · intro x hx; exact isCountChar_of_chars (hv.chars x hx)
+    · intro x r hr; subst hr; exact hrest
+  have hdrop : (c :: (t ++ (v.show ++ rest))).drop (c :: t).length = v.show ++ rest := by
+    have : c :: (t ++ (v.show ++ rest)) = (c :: t) ++ (v.show ++ rest) := rfl
+    rw [this, List.drop_left]
+  simp only [List.cons_append, List.append_assoc] at hfind ⊢
+  rw [parseGlycanAux]
+  simp only [hfind, List.isEmpty_cons, Bool.false_eq_true, if_false, hdrop, hspan, countOf_show hv]
+  have hlen : (c :: t).length + v.show.length - 1 = (t ++ v.show).length := by
+    simp only [List.length_cons, List.length_append]; omega
+  rw [hlen, ← List.append_assoc, parseGlycanAux_skip]
+
+/-- the written form is unambiguous for the vocabulary: at every item the written name is in the vocabulary, no longer
+vocabulary name is a prefix of the remaining text, and the text after the count does not go on with a count character
+(decidable: `decide` works on concrete instances) -/
+def Unambig (names : List Str) : Comp → Bool
+  | [] => true
+  | (nm, v) :: g =>
+    names.contains nm &&
+    names.all (fun n => !(n.isPrefixOf (nm ++ v.show ++ writeGlycan g [])) || decide (n.length ≤ nm.length)) &&
+    !startsCount (writeGlycan g []) &&
+    Unambig names g
+
+/-- the dict the parser builds: successive assignment (a repeated key keeps its first position and takes the last
+count — assignment, not accumulation) -/
+def foldSet (d g : Comp) : Comp := g.foldl (fun d kv => setTo d kv.1 kv.2) d
+
+theorem parseGlycanAux_write (names : List Str) (hne : ∀ nm ∈ names, nm ≠ []) (hs : LenDesc names) :
+    ∀ (g d : Comp), Unambig names g = true → (∀ kv ∈ g, NumOK kv.2) →
+      parseGlycanAux names 0 (writeGlycan g []) d = .ok (foldSet d g) := by
+  intro g
+  induction g with
+  | nil => intro d _ _; rfl
+  | cons kv g ih =>
+    intro d hu hv
+    obtain ⟨nm, v⟩ := kv
+    simp only [Unambig, Bool.and_eq_true, Bool.not_eq_true', List.contains_iff_mem, List.all_eq_true,
+      Bool.or_eq_true, decide_eq_true_eq] at hu
+    obtain ⟨⟨⟨hmem, hmax⟩, hsc⟩, hu'⟩ := hu
+    have hp : nm.isPrefixOf (nm ++ v.show ++ writeGlycan g []) = true :=
+      isPrefixOf_iff.2 ⟨v.show ++ writeGlycan g [], by simp⟩
+    have hfind := find_eq_of_longest names _ hs nm hmem hp (by
+      intro n hn hpn
+      rcases hmax n hn with h | h
+      · rw [hpn] at h; cases h
+      · exact h)
+    rw [writeGlycan_cons, parseGlycanAux_item names nm v _ d (hne nm hmem) (hv (nm, v) (by simp)) hfind hsc]
+    rw [ih _ hu' (fun kv hkv => hv kv (List.mem_cons_of_mem _ hkv))]
+    rfl
+
+theorem setTo_new (k : Str) (v : Num) : ∀ d : Comp, k ∉ gkeys d → setTo d k v = d ++ [(k, v)] := by
+  intro d
+  induction d with
+  | nil => intro _; rfl
+  | cons kv r ih =>
+    intro h
+    obtain ⟨k', v'⟩ := kv
+    simp only [gkeys, List.map_cons, List.mem_cons, not_or] at h
+    have hk : (k' == k) = false := by
+      simp only [beq_eq_false_iff_ne, ne_eq]
+      exact fun e => h.1 e.symm
+    simp only [setTo, hk, Bool.false_eq_true, if_false, List.cons_append]
+    rw [ih h.2]
+
+theorem foldSet_distinct : ∀ (g d : Comp), (gkeys (d ++ g)).Nodup → foldSet d g = d ++ g := by
+  intro g
+  induction g with
+  | nil => intro d _; simp [foldSet]
+  | cons kv g ih =>
+    intro d h
+    obtain ⟨k, v⟩ := kv
+    have hk : k ∉ gkeys d := by
+      simp only [gkeys, List.map_append, List.map_cons] at h ⊢
+      rw [List.nodup_append] at h
+      intro hkd
+      exact h.2.2 k hkd k (by simp) rfl
+    have h' : (gkeys ((d ++ [(k, v)]) ++ g)).Nodup := by simpa using h
+    have := ih (d ++ [(k, v)]) h'
+    simp only [foldSet, List.foldl_cons] at this ⊢
+    rw [setTo_new k v d hk, this]
+    simp
+
 end Formula
